@@ -79,7 +79,9 @@ def main():
     if os.path.exists(os.path.join(sdir, "notes.md")):
         shutil.copy(os.path.join(sdir, "notes.md"), os.path.join(dst, "notes.md"))
     json.dump(meta, open(os.path.join(dst, "meta.json"), "w"), indent=1)
-    recheck(name)
+    # the checks are run on a scratch copy of /repo HEAD with the patch applied (tools/recheck_fast.py), so /repo itself stays clean
+    # while other tools are working; `--recheck` is the variant that applies the patch to /repo and undoes it
+    subprocess.run([sys.executable, os.path.join(VERIF, "tools", "recheck_fast.py"), name])
 
 
 def recheck(name):
